@@ -428,8 +428,12 @@ func TestPropProduct(t *testing.T) {
 			for _, con := range constructs {
 				for mi, mut := range mutNames(coll) {
 					for _, ex := range exits {
-						for _, n := range []int{0, 1, 3} {
-							for _, k := range []int{1, 2, 3} {
+						ns := []int{0, 1, 3}
+						if full {
+							ns = []int{0, 1, 2, 3, 5, 9} // 9 elements: a dict/set grows past its first bucket while iterated
+						}
+						for _, n := range ns {
+							for _, k := range []int{1, 2, 3, 5, 9} {
 								if k > n && !(k == 1 && n == 0) {
 									continue
 								}
@@ -946,7 +950,7 @@ func TestPropPushIterators(t *testing.T) {
 
 // Random scenarios with larger collections and later action points.
 func TestPropRandomScenarios(t *testing.T) {
-	vk.Rapid(t, subScenario, vk.N(300, 1500), func(t *rapid.T) Case {
+	vk.Rapid(t, subScenario, vk.N(300, 15000), func(t *rapid.T) Case {
 		coll := []string{"list", "dict", "set"}[vk.Uniform(t, 3)]
 		ms := mutNames(coll)
 		n := vk.Uniform(t, 9)
